@@ -50,6 +50,14 @@ fn dump_body<'tcx>(cx: &Ctx<'tcx>, did: DefId, kind_s: &str, body: &Body<'tcx>) 
     }
     if matches!(tcx.def_kind(did), DefKind::Fn | DefKind::AssocFn) {
         o.push(("pub", J::Bool(tcx.visibility(did).is_public())));
+        // no visibility modifier at all: visible in the module that contains the item only
+        let private = match (tcx.visibility(did), did.as_local()) {
+            (ty::Visibility::Restricted(m), Some(ld)) => {
+                m == tcx.parent_module_from_def_id(ld).to_def_id()
+            }
+            _ => false,
+        };
+        o.push(("private", J::Bool(private)));
         let sig = tcx.fn_sig(did).skip_binder().skip_binder();
         o.push(("unsafe", J::Bool(sig.safety().is_unsafe())));
         o.push((
